@@ -343,7 +343,7 @@ class Item:
             if h > last:
                 flt.append(h)
                 last = h + len(pat) - 1
-        if len(flt) != count:
+        if count >= 0 and len(flt) != count:
             raise LostAnchor("%s: pattern `%s` matched %d times in %s, expected %d"
                              % (kind, " ".join(pat), len(flt), self.path, count))
         rep = tokenize(rep_src)
@@ -354,7 +354,7 @@ class Item:
                 new[0].ws = ws if ws else " "
             self.toks[h:h + len(pat)] = new
         self.log.append({"kind": kind, "match": " ".join(pat), "replace": " ".join(texts(rep)),
-                         "count": count, "why": why})
+                         "count": len(flt), "declared_count": ("any" if count < 0 else count), "why": why})
 
     def signature(self, expect_src, new_src, why=""):
         o = self.body_open()
